@@ -371,6 +371,20 @@ class Scenario:
     # ---- bookkeeping + monitors ------------------------------------------------------------
     def after_step(self, m, label):
         st = m.st
+        # responses handed back in this step (bookkeeping first, so that the events are part of `new`)
+        finished = []
+        for t in st.sched.tasks:
+            k = st.roots['task_of'].get(t.tid)
+            if k is None:
+                continue
+            key = (st.roots['epoch'], k)
+            if t.status == 'done' and ('seen', t.tid) not in st.roots:
+                st.roots[('seen', t.tid)] = True
+                resp = t.result
+                st.roots['responses'][key] = resp
+                st.roots['resp_order'].append(key)
+                m.event('htlc_response', k, _resp_kind(resp))
+                finished.append((k, resp))
         new = st.events[st.roots['ev_seen']:]
         st.roots['ev_seen'] = len(st.events)
         for ev in new:
@@ -385,20 +399,10 @@ class Scenario:
                     for mon in self.monitors:
                         if hasattr(mon, 'on_decided'):
                             mon.on_decided(m, self, key[1], ev)
-        for t in st.sched.tasks:
-            k = st.roots['task_of'].get(t.tid)
-            if k is None:
-                continue
-            key = (st.roots['epoch'], k)
-            if t.status == 'done' and ('seen', t.tid) not in st.roots:
-                st.roots[('seen', t.tid)] = True
-                resp = t.result
-                st.roots['responses'][key] = resp
-                st.roots['resp_order'].append(key)
-                m.event('htlc_response', k, _resp_kind(resp))
-                for mon in self.monitors:
-                    if hasattr(mon, 'on_response'):
-                        mon.on_response(m, self, k, resp)
+        for k, resp in finished:
+            for mon in self.monitors:
+                if hasattr(mon, 'on_response'):
+                    mon.on_response(m, self, k, resp)
         for mon in self.monitors:
             if hasattr(mon, 'after_step'):
                 mon.after_step(m, self, label, new)
